@@ -77,6 +77,7 @@ class Sweep:
         self.violations: list[dict] = []
         self.branches = collections.Counter()
         self.samples: list[Any] = []
+        self._per_key = collections.Counter()
 
     def note(self, key: Any, branch: str | None = None):
         self.evaluations += 1
@@ -92,7 +93,11 @@ class Sweep:
         """record a violation when `ok` is false"""
         if ok:
             return True
-        if len(self.violations) < 400:
+        # keep up to 60 records per (what, clause, kind) so that one frequent failure class cannot
+        # crowd another one out of the record
+        key = (what, case.get("clause"), case.get("kind"), case.get("cls"))
+        self._per_key[key] += 1
+        if self._per_key[key] <= 60 and len(self.violations) < 3000:
             self.violations.append(
                 {"property": self.prop, "what": what, "case": case, "expected": expected, "actual": actual, "snippet": snippet}
             )
